@@ -385,6 +385,7 @@ pub const BYZ_KINDS: &[&str] = &[
     "invalid-esc",
     "mangled-start",
     "bogus-realign",
+    "wire-grammar",
     "canonical",
 ];
 
@@ -508,6 +509,42 @@ pub fn gen_byzantine_frame(rng: &mut Rng) -> (usize, Vec<u8>) {
                 v.truncate(tail_from);
                 v.extend_from_slice(&t);
             }
+        }
+        "wire-grammar" => {
+            // a frame-like byte string assembled from wire-level tokens and sealed with the CRC the
+            // receiver will compute over exactly these bytes: every branch behind the checksum is
+            // reachable, nothing but a canonical frame may come out
+            let ntok = rng.range(0, 8);
+            for _ in 0..ntok {
+                match rng.below(9) {
+                    0 | 1 => v.extend_from_slice(&rng.bytes_range(1, 6)),
+                    2 => v.extend(std::iter::repeat(0x1b).take(rng.range(1, 9))),
+                    3 => v.extend(std::iter::repeat(0x00).take(rng.range(1, 6))),
+                    4 => v.extend_from_slice(&[0x1b; 8]),
+                    5 => {
+                        v.extend_from_slice(&[0x1b; 4]);
+                        let code: [u8; 4] = match rng.below(6) {
+                            0 => [0x01, 0x01, 0x01, 0x01],
+                            1 => [0x1a, rng.below(5) as u8, rng.byte(), rng.byte()],
+                            2 => [0x01, rng.byte(), 0x01, 0x01],
+                            3 => [0x1b, 0x1b, 0x1a, 0x00],
+                            4 => [0x1b, 0x1a, 0x00, rng.byte()],
+                            _ => [rng.byte(), rng.byte(), rng.byte(), rng.byte()],
+                        };
+                        v.extend_from_slice(&code);
+                    }
+                    6 => v.extend(std::iter::repeat(0x01).take(rng.range(1, 4))),
+                    7 => v.push(0x1a),
+                    _ => v.push(*rng.pick(&[0x1bu8, 0x00, 0x01, 0x1a, 0xff])),
+                }
+            }
+            if rng.chance(2, 3) {
+                while v.len() % 4 != 0 {
+                    v.push(if rng.chance(3, 4) { 0 } else { 0x31 });
+                }
+            }
+            let pad = if rng.chance(3, 4) { rng.below(4) as u8 } else { *rng.pick(&[4u8, 5, 0x80, 0xf0, 0xff]) };
+            seal_end(&mut v, pad);
         }
         "bogus-realign" => {
             // body whose length is not a multiple of four, then 1b1b1b1b, then filler bytes up to the
@@ -723,6 +760,62 @@ pub fn gen_segs(rng: &mut Rng, tier: Tier, mix: &StreamMix) -> Vec<Seg> {
         }
     }
     v
+}
+
+/// stream offsets at which something structural happens: segment boundaries and their
+/// neighbourhood (just after a start sequence, inside / after an end sequence, ...)
+pub fn marks_of(segs: &[Seg]) -> Vec<usize> {
+    let b = crate::scn::build_stream(segs);
+    let len = b.stream.len();
+    let mut m = vec![0, len];
+    for s in &b.segs {
+        for d in [0i64, 1, 4, 7, 8, 9, 12] {
+            let p = s.start as i64 + d;
+            if p >= 0 && p as usize <= len {
+                m.push(p as usize);
+            }
+        }
+        for d in [0i64, 1, 2, 3, 4, 5, 8] {
+            let p = s.end as i64 - d;
+            if p >= 0 && p as usize <= len {
+                m.push(p as usize);
+            }
+        }
+    }
+    m.sort();
+    m.dedup();
+    m
+}
+
+/// like `gen_push_ops`, but half of the positions are drawn from `marks`
+pub fn gen_push_ops_biased(rng: &mut Rng, len: usize, count: usize, marks: &[usize]) -> Vec<(usize, crate::fe::PushOp)> {
+    let mut v = gen_push_ops(rng, len, count);
+    for (p, _) in v.iter_mut() {
+        if !marks.is_empty() && rng.chance(1, 2) {
+            *p = *rng.pick(marks);
+        }
+    }
+    v.sort_by_key(|(p, _)| *p);
+    v
+}
+
+/// move half of the source faults to structurally interesting offsets (runs of repeated faults
+/// at one position stay together)
+pub fn bias_src(rng: &mut Rng, v: &mut Vec<(usize, SrcFault)>, marks: &[usize]) {
+    let mut last: Option<(usize, usize)> = None;
+    for (p, _) in v.iter_mut() {
+        match last {
+            Some((o, n)) if o == *p => *p = n,
+            _ => {
+                let old = *p;
+                if !marks.is_empty() && rng.chance(1, 2) {
+                    *p = *rng.pick(marks);
+                }
+                last = Some((old, *p));
+            }
+        }
+    }
+    v.sort_by_key(|(p, _)| *p);
 }
 
 /// finalize / reset at random positions of a stream of `len` bytes
